@@ -15,6 +15,7 @@ import sys
 import tempfile
 
 from models import formats as F
+from models import sigmodel
 from models import traits as T
 from sim import core, imgsim, streams
 from sim.runner import Check
@@ -316,16 +317,30 @@ class C02(Check):
                 if f == fmt:
                     pass
                 elif res2 == 'pass' and label == 'reject':
-                    # detected as another format and accepted as such: this
-                    # is C03's business unless that format's own gate is
-                    # broken
                     self._structural(insps[f], f, 'wrapper-detected')
+                    self._accepted_as_other(data, info, case, f,
+                                            'InspectWrapper.format')
                 if label == 'accept' and f != fmt:
                     self.bump('probes', 'accept_case_other_format')
             # every inspector: structural rule
             for name, i2 in insps.items():
                 self._structural(i2, name, 'wrapper-all')
         return [s['mode'], s['fam'].split('(')[0]]
+
+    def _accepted_as_other(self, data, info, case, detected, where):
+        """A must-reject image went through detection, came out as ANOTHER
+        format and passed that format's check.  Whether the detection is
+        right is C03's business - except when the image's own signature is
+        intact by the reference signature model: then the unsafe image has
+        simply been waved through."""
+        fmt = info['fmt']
+        if info.get('text') or fmt not in sigmodel.NONRAW:
+            return
+        if sigmodel.model(data, info).get(fmt) != 'yes':
+            self.bump('probes', 'reject_image_detected_as_other_format')
+            return
+        self.viol('unsafe_image_accepted', inspector=fmt,
+                  reasons=case['reasons'], where=where, detected_as=detected)
 
     def _structural(self, insp, name, where):
         res = imgsim.q_safety(insp)
@@ -458,8 +473,9 @@ class C02(Check):
                            info, ndata, 'detect_file_format')
             else:
                 self._structural(insp, out, 'detect-other')
-                if res == 'pass' and label == 'reject' and out != 'raw':
-                    pass
+                if res == 'pass' and label == 'reject':
+                    self._accepted_as_other(data[:ndata], info, case, out,
+                                            'detect_file_format')
         return ['detect', bool(f.get('short'))]
 
     # <Inspector>.from_file through the open() seam
@@ -590,6 +606,8 @@ class C02(Check):
                     self.viol('cli_exit0_for_unsafe_image',
                               reasons=case['reasons'], inspector=info['fmt'],
                               detected=fmt)
+                elif label == 'reject' and acc:
+                    self._accepted_as_other(data, info, case, fmt, 'cli')
                 elif not acc:
                     self.viol('cli_exit0_without_success',
                               inspector=info['fmt'], detected=fmt)
